@@ -330,6 +330,11 @@ func (packet *Packet) getServerCapabilities() uint32 {
 	// https://dev.mysql.com/doc/internals/en/connection-phase-packets.html#idm140437490034448
 	endOfServerVersion := bytes.Index(packet.data[1:], []byte{0}) + 2 // 1 first byte of protocol version and 1 to point to next byte
 	// 4 bytes connection string + 8 bytes of auth plugin + 1 byte filler
+	if len(packet.data) < endOfServerVersion+13+2 {
+		// not a complete handshake (for example an ERR packet sent instead of it)
+		logrus.Debug("packet hasn't DB capabilities")
+		return 0
+	}
 	rawCapabilities := packet.data[endOfServerVersion+13 : endOfServerVersion+13+2]
 	return uint32(binary.LittleEndian.Uint16(rawCapabilities))
 }
